@@ -503,10 +503,17 @@ def run_kind_arms(rec, R, F, fn):
         casts = [lastseg(tt["f"]) for bi, tt in fn.calls() if bi in reg and lastseg(tt["f"]).startswith("to_")]
         traces = [x for x in tb if x in reg]
         want = kt["kind_to_cast"].get(kind)
-        ok = bool(traces) and casts == [want]
+        # the traced receiver is the typed handle itself (its trace marks the object's own header), not a part of the object
+        whole = False
+        for x in traces:
+            tt = fn.blocks[x]["t"]
+            r_ = fn.root_of(tt["args"][0]) if tt["k"] == "call" and tt["args"] else ("unknown",)
+            if r_[0] == "call" and lastseg(r_[1]["f"]) == want:
+                whole = True
+        ok = bool(traces) and casts == [want] and whole
         rec.inst(R, "ObjectRef::trace:arm:%s" % kind, ok=ok, loc=fn.loc)
         if not ok:
-            rec.finding(R, "F5.p/ObjectRef/arm/%s" % kind, "ObjectRef::trace arm %s: casts %s (expected [%s]) and %d trace calls" % (kind, casts, want, len(traces)), loc=fn.loc, fn=fn.path)
+            rec.finding(R, "F5.p/ObjectRef/arm/%s" % kind, "ObjectRef::trace arm %s: casts %s (expected [%s]), %d trace calls, traces the handle itself: %s (tracing only a field of the object leaves the object's own header unmarked: it is freed while the value that holds it is live)" % (kind, casts, want, len(traces), whole), loc=fn.loc, fn=fn.path)
     allk = set(sv[1].values())
     missing = allk - seen
     # a missing kind falls to `otherwise`; it must trace too
